@@ -40,7 +40,7 @@ def gen_cases(tier: str, seed: int) -> list[dict]:
     rng = random.Random(seed)
     names = example_names()
     logics = QUICK_LOGICS if tier == 'quick' else LOGICS
-    n = 182 if tier == 'quick' else 3032
+    n = 189 if tier == 'quick' else 3039
     cases = []
     seen = set()
     # a fixed core: every option combination on a branching, a modal and a quantified argument
@@ -63,6 +63,11 @@ def gen_cases(tier: str, seed: int) -> list[dict]:
         for spec in (dict(premises=['a', 'a'], conclusion='b'), dict(premises=['Na'], conclusion='a'),
                      dict(premises=['Kab', 'a', 'Kab'], conclusion='Kab'), dict(premises=['NNa', 'Na'], conclusion='Na')):
             cases.append(dict(logic=lg, arg=spec, opts=dict(OPTS[0])))
+    # finished by hand before completion (step_cap), then poked with step() / build(): nothing may change and the tree /
+    # statistics still describe the tableau
+    for lg, a in core[:7]:
+        if a in names:
+            cases.append(dict(logic=lg, arg=a, opts=dict(OPTS[0]), step_cap=1, poke_after_finish=True))
     while len(cases) < n:
         lg = rng.choice(logics)
         a = rng.choice(names)
